@@ -37,8 +37,11 @@ type Program struct {
 	Style    render.Style // import style of the source rendering
 	MaxTape  int          // decision-tape bit bound (0 = default)
 	MaxPaths int          // tape paths explored at most (0 = default)
+	MaxMoves int          // advances of the standard consumer (0 = default 12)
+	Budget   int          // event budget per run (0 = default)
 	Hist     []int        // consumer histories (K values) in addition to the drain; nil = default
 	NoRef    bool         // no reference rendering (C07-only cases that use seq directly)
+	Isolate  bool         // compile in a package of its own from the start (known-finding witnesses)
 	Native   bool         // bystander program: the natively built SOURCE package is the reference (C13)
 	MapOrder bool         // traces are compared as sorted multisets (map iteration order)
 	Expect   string       // "" | "reject-or-equiv" (C12)
@@ -563,14 +566,22 @@ func (p *Pipeline) Run(progs []*Program) ([]*Outcome, error) {
 		pr.ID = i
 		outs[i] = &Outcome{Prog: pr}
 	}
-	// round 1: batches
+	// round 1: batches (isolated programs get a package of their own)
 	var bs []*batch
-	for i := 0; i < len(outs); i += p.Opts.BatchSize {
-		j := i + p.Opts.BatchSize
-		if j > len(outs) {
-			j = len(outs)
+	var pooled []*Outcome
+	for _, o := range outs {
+		if o.Prog.Isolate {
+			bs = append(bs, &batch{name: fmt.Sprintf("r%di%04d", p.round, o.Prog.ID), progs: []*Outcome{o}})
+		} else {
+			pooled = append(pooled, o)
 		}
-		bs = append(bs, &batch{name: fmt.Sprintf("r%db%03d", p.round, len(bs)), progs: outs[i:j]})
+	}
+	for i := 0; i < len(pooled); i += p.Opts.BatchSize {
+		j := i + p.Opts.BatchSize
+		if j > len(pooled) {
+			j = len(pooled)
+		}
+		bs = append(bs, &batch{name: fmt.Sprintf("r%db%03d", p.round, len(bs)), progs: pooled[i:j]})
 	}
 	good, bad, err := p.buildRound(bs, true)
 	if err != nil {
@@ -758,6 +769,7 @@ func (p *Pipeline) runGood(good []*batch) error {
 		NoRef     bool   `json:"no_ref"`
 		MapOrder  bool   `json:"map_order"`
 		Native    bool   `json:"native"`
+		MaxMoves  int    `json:"max_moves"`
 	}
 	byName := map[string]*Outcome{}
 	var jobs []job
@@ -774,6 +786,10 @@ func (p *Pipeline) runGood(good []*batch) error {
 			if o.Prog.Hist != nil {
 				j.Hist = o.Prog.Hist
 			}
+			if o.Prog.Budget > 0 {
+				j.Budget = o.Prog.Budget
+			}
+			j.MaxMoves = o.Prog.MaxMoves
 			jobs = append(jobs, j)
 		}
 	}
